@@ -747,13 +747,13 @@ impl<'b> InputState<'b> {
             }
             E(K::Char('b'), M::NONE) => Cmd::Move(Movement::BackwardWord(n, Word::Vi)), /* vi-prev-word */
             E(K::Char('B'), M::NONE) => Cmd::Move(Movement::BackwardWord(n, Word::Big)),
-            E(K::Char('c'), M::NONE) => {
-                self.input_mode = InputMode::Insert;
-                match self.vi_cmd_motion(rdr, wrt, key, n)? {
-                    Some(mvt) => Cmd::Replace(mvt, None),
-                    None => Cmd::Unknown,
+            E(K::Char('c'), M::NONE) => match self.vi_cmd_motion(rdr, wrt, key, n)? {
+                Some(mvt) => {
+                    self.input_mode = InputMode::Insert;
+                    Cmd::Replace(mvt, None)
                 }
-            }
+                None => Cmd::Unknown,
+            },
             E(K::Char('C'), M::NONE) => {
                 self.input_mode = InputMode::Insert;
                 Cmd::Replace(Movement::EndOfLine, None)
